@@ -26,10 +26,10 @@ import (
 )
 
 type e2eScript struct {
-	start   int64
-	cmds    [][][]byte
-	gaps    []time.Duration // pause after each command
-	dropAt  int             // drop the link after this command index (-1 never)
+	start  int64
+	cmds   [][][]byte
+	gaps   []time.Duration // pause after each command
+	dropAt int             // drop the link after this command index (-1 never)
 }
 
 func (s e2eScript) String() string {
@@ -243,7 +243,9 @@ func runE2E(s e2eScript, id int) (sig, msg string) {
 	return "", ""
 }
 
-func crcOf(b []byte) uint64 { return binary.LittleEndian.Uint64(appendCRC(append([]byte{}, b...))[len(b):]) }
+func crcOf(b []byte) uint64 {
+	return binary.LittleEndian.Uint64(appendCRC(append([]byte{}, b...))[len(b):])
+}
 
 func c08E2EBatch(t *rapid.T) {
 	o := &conf.Options
